@@ -358,10 +358,13 @@ theorem parseR6rsChar_srel {fuel : Nat} : SRel (parseR6rsChar fuel) := by
 theorem asChar_srel {n : Nat} : SRel (asChar n) := by
   unfold asChar; srel_wp []
 
+theorem asEscapedChar_srel {n : Nat} : SRel (asEscapedChar n) := by
+  unfold asEscapedChar; srel_wp [asChar_srel]
+
 theorem decodeElispCharEscape_srel {fuel : Nat} : SRel (decodeElispCharEscape fuel) := by
   unfold decodeElispCharEscape
   srel_wp [nextOrEofChar_srel, nextOrEof_srel, decodeElispHexEscape_srel, decodeElispUniEscape_srel,
-    decodeElispOctalEscape_srel, asChar_srel, decodeUtf8Sequence_srel]
+    decodeElispOctalEscape_srel, asChar_srel, asEscapedChar_srel, decodeUtf8Sequence_srel]
 
 theorem parseElispChar_srel {fuel : Nat} : SRel (parseElispChar fuel) := by
   unfold parseElispChar
